@@ -140,6 +140,13 @@ func Sets() [][]Def {
 		{P("SIGN", `(\+|-)?x?`), P("WORD", "[a-z][a-z]+")},
 		{P("OPT", "a?")},
 		{P("LAST", "[a-z]+"), P("MID", "[0-9]+"), P("NUL", "(_)*")},
+		// groups of consecutive code points that end at, start at or cross a border: ASCII / two-byte / three-byte /
+		// four-byte encodings, the gap of the surrogates, the largest code point; groups that contain, start with or
+		// end in the quote and the backslash; single characters at the borders
+		{P("BA", `a[\x7D-\x7F]`), P("BB", `b[\x0080-\x0082]`), P("BC", `c[\x7E-\x0081]`), P("BD", `d[\x07FE-\x0801]`), P("BE", `e[\xD7FD-\xD7FF]`),
+			P("BF", `f[\xE000-\xE002]`), P("BG", `g[\xFFFD-\xFFFF]`), P("BH", `h[\xFFFE-\x010001]`), P("BI", `i[\x10FFFD-\x10FFFF]`), P("BJ", `j\x10FFFF`),
+			P("BK", `k\xD7FF`), P("BL", `l\xE000`), P("BM", `m[\x26-\x28]`), P("BN", `n[\x5B-\x5D]`), P("BO", `o[\x21-\x27]`), P("BP", `p[\x5A-\x5C]`),
+			P("BQ", `q[\x27-\x29]`), P("BR", `r[\x5C-\x5E]`), P("BS", `s[\xD7FE-\xE001]`), P("BT", `t[\x01-\x03]`), P("BU", `u[\x10FFFE-\x10FFFF]+`)},
 	}
 }
 
